@@ -457,7 +457,7 @@ func emitRead(t *Trace, spec recvSpec, stream []byte, expect int, extra int, str
 var kindNames = []string{"flat", "ivf", "pq", "ivfpq", "hnsw", "bm25", "meta", "hybrid"}
 
 func genC07(r *rand.Rand, t *Trace, thorough bool) {
-	per := 12
+	per := 24
 	nh := 25
 	if thorough {
 		per, nh = 120, 400
@@ -487,6 +487,17 @@ func genC07(r *rand.Rand, t *Trace, thorough bool) {
 				}
 				if want != got {
 					diffs = 1
+				} else if continueBoth(r, b, l, dimOf(b)) {
+					// "accepts further adds and removals": the same continuation on the source and on
+					// the reloaded index, then the same probes again
+					if b.src.probe(b.queries, b.words) != l.probe(b.queries, b.words) {
+						diffs = 2
+						t.Stat("c07.continuation_differs")
+					}
+					t.Stat("c07.continuation." + kindNames[ck])
+				} else {
+					diffs = 2
+					t.Stat("c07.continuation_outcome_differs")
 				}
 			} else {
 				diffs = 1
@@ -502,6 +513,83 @@ func genC07(r *rand.Rand, t *Trace, thorough bool) {
 			t.Emit(NewCase(703).N(ck).N(len(b.queries)).N(diffs).I(dw).I(dr).N(srcChanged).B(b.hadDeleted), "reload."+kindNames[ck])
 		}
 	}
+}
+
+func dimOf(b builtState) int {
+	if len(b.queries) > 0 {
+		return len(b.queries[0])
+	}
+	return 1
+}
+
+// continueBoth applies one random continuation (adds incl. re-adds and empty texts, removals, a flush)
+// to the source and to the reloaded index and reports whether every call had the same outcome on both.
+// HNSW draws insertion levels from its own generator, so its continuation only removes and flushes.
+func continueBoth(r *rand.Rand, b builtState, l loaded, dim int) bool {
+	same := true
+	nops := 2 + r.Intn(6)
+	eq := func(e1, e2 error) {
+		if (e1 == nil) != (e2 == nil) {
+			same = false
+		}
+	}
+	for i := 0; i < nops; i++ {
+		x := r.Intn(10)
+		switch {
+		case b.src.hyb != nil:
+			id := uint32(100 + r.Intn(12))
+			if x < 5 {
+				var vec []float32
+				if b.src.vec != nil && b.src.vec.Trained() && b.src.vec.Kind() != comet.HNSWIndexKind && r.Intn(4) != 0 {
+					vec = histVec(r, dim, 1)
+				}
+				txt := ""
+				if b.src.txt != nil && r.Intn(4) != 0 {
+					txt = rndText(r)
+				}
+				var md map[string]interface{}
+				if b.src.meta != nil && r.Intn(3) != 0 {
+					md = rndMeta(r)
+				}
+				eq(b.src.hyb.AddWithID(id, cloneVec(vec), txt, md), l.hyb.AddWithID(id, cloneVec(vec), txt, md))
+			} else {
+				eq(b.src.hyb.Remove(id), l.hyb.Remove(id))
+			}
+		case b.src.vec != nil:
+			id := uint32(10 + r.Intn(12))
+			hnsw := b.src.vec.Kind() == comet.HNSWIndexKind
+			switch {
+			case x < 4 && !hnsw:
+				v := histVec(r, dim, r.Intn(2))
+				eq(b.src.vec.Add(*comet.NewVectorNodeWithID(id, cloneVec(v))), l.vec.Add(*comet.NewVectorNodeWithID(id, cloneVec(v))))
+			case x < 8:
+				eq(b.src.vec.Remove(*comet.NewVectorNodeWithID(id, nil)), l.vec.Remove(*comet.NewVectorNodeWithID(id, nil)))
+			default:
+				eq(b.src.vec.Flush(), l.vec.Flush())
+			}
+		case b.src.txt != nil:
+			id := uint32(10 + r.Intn(12))
+			switch {
+			case x < 4:
+				txt := rndText(r)
+				eq(b.src.txt.Add(id, txt), l.txt.Add(id, txt))
+			case x < 8:
+				eq(b.src.txt.Remove(id), l.txt.Remove(id))
+			default:
+				b.src.txt.Flush()
+				l.txt.Flush()
+			}
+		case b.src.meta != nil:
+			id := uint32(10 + r.Intn(12))
+			if x < 5 {
+				md := rndMeta(r)
+				eq(b.src.meta.Add(*comet.NewMetadataNodeWithID(id, md)), l.meta.Add(*comet.NewMetadataNodeWithID(id, md)))
+			} else {
+				eq(b.src.meta.Remove(*comet.NewMetadataNodeWithID(id, nil)), l.meta.Remove(*comet.NewMetadataNodeWithID(id, nil)))
+			}
+		}
+	}
+	return same
 }
 
 func genC16(r *rand.Rand, t *Trace, thorough bool) {
